@@ -805,6 +805,19 @@ func recipeOneof(c *ctx) {
 			}
 			return &GV{K: "o", Keys: []string{b.GoName}, Elems: []*GV{c.p.b.GenGo(w.Field(0).Type, r, m, 1)}}
 		}
+		// a message branch that is SET to a message holding nothing (non-nil pointer to the zero struct): CopyTo renders
+		// its attribute non-null with null attributes inside, and CopyFrom has to select that branch
+		mkSetZero := func(b *spec.EField, r *Rnd) *GV {
+			w, ok := c.p.b.wrapperFor(holderField.Type, b.GoName)
+			if !ok {
+				return nil
+			}
+			ft := w.Field(0).Type
+			if ft.Kind() != reflect.Ptr || ft.Elem().Kind() != reflect.Struct {
+				return nil
+			}
+			return &GV{K: "o", Keys: []string{b.GoName}, Elems: []*GV{{K: "p", Elems: []*GV{c.p.b.GenGo(ft.Elem(), r, MZero, 2)}}}}
+		}
 		choices := append([]*spec.EField{nil}, bs...)
 		k := 0
 		for _, act := range choices {
@@ -833,7 +846,13 @@ func recipeOneof(c *ctx) {
 					if variant >= 1 && act != nil {
 						m = MZero // active branch with zero payload
 					}
-					v := setHolder(c.zero(), mk(act, r, m))
+					hv := mk(act, r, m)
+					if variant == 1 && act != nil && act.Shape == "obj" && pri != nil {
+						if z := mkSetZero(act, r); z != nil {
+							hv = z
+						}
+					}
+					v := setHolder(c.zero(), hv)
 					id, tr := c.To("oneof-to", v, EmptyOf(c.objTy))
 					if tr.Panic != "" {
 						c.Oracle("C07", id, false, "panic", "CopyTo panicked")
